@@ -211,8 +211,11 @@ Pure(n, a) ==
     [] n = "toString" -> IF a[1][1] = "num" THEN RV(<<"strnum", a[1][2], a[1][3], a[1][4]>>)
                          ELSE IF a[1][1] = "str" THEN RV(a[1]) ELSE RU
     [] n = "finite" -> IF a[1][1] = "num" THEN RV(a[1]) ELSE RV(NumI(0))
-    [] n = "ceil" -> RV(NumOf(DCeil(DecOf(a[1]))))
-    [] n = "floor" -> RV(NumOf(DFloor(DecOf(a[1]))))
+    \* ceil / floor: pinned on the property's domain (at most 15 significant digits).  Beyond 16 digits the pinned
+    \* commit computes them in a 16-digit context (Context64), so ceil(x) can be below x; C18 does not speak about
+    \* such arguments and the specification leaves them open (DESIGN.md 9.3, observations outside a property's domain)
+    [] n = "ceil" -> IF Len(DecOf(a[1])[2]) <= 15 THEN RV(NumOf(DCeil(DecOf(a[1])))) ELSE RU
+    [] n = "floor" -> IF Len(DecOf(a[1])[2]) <= 15 THEN RV(NumOf(DFloor(DecOf(a[1])))) ELSE RU
     [] n = "roundBank" -> RV(NumOf(DRoundHalfEven(DecOf(a[1]))))
     [] n = "round" -> LET x == DecOf(a[1])  f == DFloor(x)  fr == DAddExact(x, DNeg(f))  c == DCmp(fr, DHalf) IN
                       IF c < 0 THEN RV(NumOf(f))
